@@ -12,7 +12,20 @@ cd "$WT"
 git apply "$OUT/patch.diff" || { echo "CONFIRM patch does not apply"; exit 1; }
 go build ./... || { echo "CONFIRM does not compile"; exit 1; }
 suite=$(go test -vet=off -count=1 ./workflow/ ./internal/... ./loadfile/ ./config/ 2>&1 | grep -E '^(FAIL|--- FAIL|panic)' | head -5)
-if [ -n "$suite" ]; then echo "CONFIRM suite fails with the change: $suite"; exit 1; fi
+if [ -n "$suite" ]; then
+  # timing-based tests of ./workflow fail sporadically on a loaded machine with or without any change:
+  # a test counts as failing only if it fails five times in a row when run alone
+  real=""
+  for tn in $(echo "$suite" | grep -o -- '--- FAIL: [A-Za-z0-9_]*' | sed 's/--- FAIL: //' | sort -u); do
+    okonce=0
+    for k in 1 2 3 4 5; do
+      if go test -vet=off -count=1 -run "^$tn\$" ./workflow/ ./internal/... ./loadfile/ ./config/ >/dev/null 2>&1; then okonce=1; break; fi
+    done
+    [ $okonce = 0 ] && real="$real $tn"
+  done
+  if [ -n "$real" ] || ! echo "$suite" | grep -q -- '--- FAIL'; then echo "CONFIRM suite fails with the change: $suite ($real)"; exit 1; fi
+  echo "CONFIRM note: sporadic failures under load, passing when rerun alone: $(echo "$suite" | grep -o -- '--- FAIL: [A-Za-z0-9_]*' | tr '\n' ' ')"
+fi
 place=$(head -5 "$OUT/demo_test.go" | grep -o 'place in: *[^ ]*' | head -1 | sed 's/place in: *//')
 place=${place%/}
 [ -z "$place" ] && { echo "CONFIRM cannot find 'place in:' in demo_test.go"; exit 1; }
